@@ -86,12 +86,12 @@ def obligations(tier):
                   bounds='candidate every h:m[:s]; explicit range start every h:m with h <= 19; durations and parts of day per slice',
                   encodes=[X + 'timex_range_resolver:TimexRangeResolver.resolve_by_timerange_constraints', X + 'timex_range_resolver:TimexRangeResolver.resolve_time_against_constraint',
                            X + 'timex_helpers:TimexHelpers.expand_time_range', X + 'timex_helpers:TimexHelpers.add_time', X + 'timex_helpers:TimexHelpers.timerange_from_timex']))
-    mds = [{'mdcon': 'year'}, {'mdcon': 'month'}, {'mdcon': 'days', 'ndays': 45}, {'mdcon': 'days', 'ndays': 400}]
+    mds = [{'mdcon': 'year'}, {'mdcon': 'month'}, {'mdcon': 'days', 'ndays': 45}, {'mdcon': 'days', 'ndays': 400}, {'mdcon': 'twomonths'}]
     if tier == 'thorough':
         mds += [{'mdcon': 'days', 'ndays': n} for n in (1, 28, 366, 731)]
     obs.append(Ob('O15.8-monthday-in-range', 'sx', 'harness.C15r:h_monthday_in_range', twin='harness.C15r:t_monthday_in_range', slices=mds, timeout=max(t, 240),
                   descr='TimexRangeResolver.evaluate, a month-day candidate (every calendar month-day incl. 29 February) and one date-range constraint (a year, a year-month incl. '
-                        'December, an explicit range): it returns; results are definite, have that month and day, lie inside the range',
+                        'December, an explicit range; two year-month constraints three months apart): it returns; results are definite, have that month and day, lie inside one of the supplied ranges',
                   bounds='constraint anchored at every day 1951..2087; explicit lengths 45/400 days (thorough also 1/28/366/731)',
                   encodes=[X + 'timex_range_resolver:TimexRangeResolver.resolve_date_against_constraint', X + 'timex_range_resolver:TimexRangeResolver.resolve_definite_against_constraint',
                            X + 'timex_helpers:TimexHelpers.expand_datetime_range', X + 'timex_helpers:TimexHelpers.daterange_from_timex', X + 'timex_helpers:TimexHelpers.date_from_timex']))
